@@ -328,7 +328,11 @@ func (w *EvmWorld) compileBodyD(self common.Address, body, alt []Op, out map[com
 				emitCall(o, target, nil, 0, value, gcap)
 			case "recall":
 				// re-enter an existing contract of the tree through its alt entry point
-				emitCall(o, w.addrOf(o.To, self), nil, 1, value, 0)
+				rcap := 0
+				if w.CapCalls {
+					rcap = 2_000_000
+				}
+				emitCall(o, w.addrOf(o.To, self), nil, 1, value, rcap)
 			case "sstore":
 				a.push1(7)
 				a.push2(o.ID)
